@@ -622,8 +622,17 @@ def _pairs(merge):
 
 
 def _expected_label(name, merge):
+    """the label an annotation category must get. Independent of the code under test for every documented name:
+    docs/en/perception/label.md (frozen in harness/props/c14.py) + the documented merging; the live table is
+    consulted only for names the documentation does not list"""
+    from .c14 import DOC_NAME2LABEL, MERGE
+
+    low = name.lower()
+    doc = DOC_NAME2LABEL.get(low)
+    if doc is not None and (doc != "UNKNOWN" or low in {n for _, n in _pairs(False)}):
+        return MERGE.get(doc, doc) if merge else doc
     for lab, n in _pairs(merge):
-        if name.lower() == n:
+        if low == n:
             return lab
     return "UNKNOWN"
 
